@@ -343,6 +343,35 @@ pub fn compat(groups: &mut Vec<Group>, rng: &mut Rng, tier: &str) {
             v1.push_def(def(&outer, outer_ty.clone()));
             v2.push_def(def(&outer, outer_ty));
             pairs.push((outer.clone(), outer));
+            // the versioned type inside an open type: as extension addition of an outer type (same in both
+            // versions) followed by a further addition, and as CHOICE extension alternative followed by a root field
+            let px = format!("Px{}", made);
+            let px_ty = Type::Sequence(Comps {
+                root: vec![Comp { name: "head".into(), tag: None, ty: Type::Boolean, presence: Presence::Mandatory }],
+                ext: Some(vec![
+                    Comp { name: "grown".into(), tag: None, ty: Type::Ref(name.clone()), presence: Presence::Optional },
+                    Comp { name: "after".into(), tag: None, ty: Type::int(0, 65535), presence: Presence::Optional },
+                ]),
+            });
+            v1.push_def(def(&px, px_ty.clone()));
+            v2.push_def(def(&px, px_ty));
+            pairs.push((px.clone(), px));
+            let pc = format!("Pc{}", made);
+            let pc_ty = Type::Sequence(Comps {
+                root: vec![
+                    Comp {
+                        name: "sel".into(),
+                        tag: None,
+                        ty: Type::Choice { root: vec![Alt { name: "plain".into(), tag: None, ty: Type::Boolean }], ext: Some(vec![Alt { name: "grown".into(), tag: None, ty: Type::Ref(name.clone()) }]) },
+                        presence: Presence::Mandatory,
+                    },
+                    Comp { name: "tail".into(), tag: None, ty: Type::int(0, 65535), presence: Presence::Mandatory },
+                ],
+                ext: None,
+            });
+            v1.push_def(def(&pc, pc_ty.clone()));
+            v2.push_def(def(&pc, pc_ty));
+            pairs.push((pc.clone(), pc));
         }
         let mut g = Group::new("compat", vec![v1, v2]);
         g.pairs = pairs;
@@ -438,6 +467,22 @@ pub fn edges(groups: &mut Vec<Group>, rng: &mut Rng) {
         push(&mut m, Type::SequenceOf { elem: Box::new(Type::Boolean), size: size.clone() });
         push(&mut m, Type::SetOf { elem: Box::new(Type::int(0, 3)), size: size.clone() });
     }
+    // normally-small numbers around 64: many extension additions
+    push(&mut m, Type::Enumerated { root: vec![EnumItem { name: "r0".into(), num: None }, EnumItem { name: "r1".into(), num: None }], ext: Some((0..70).map(|i| EnumItem { name: format!("x{}", i), num: None }).collect()) });
+    push(
+        &mut m,
+        Type::Choice {
+            root: vec![Alt { name: "r0".into(), tag: None, ty: Type::Boolean }],
+            ext: Some((0..67).map(|i| Alt { name: format!("x{}", i), tag: None, ty: if i % 2 == 0 { Type::int(0, 255) } else { Type::Boolean } }).collect()),
+        },
+    );
+    push(
+        &mut m,
+        Type::Sequence(Comps {
+            root: vec![Comp { name: "r0".into(), tag: None, ty: Type::Boolean, presence: Presence::Mandatory }],
+            ext: Some((0..65).map(|i| Comp { name: format!("x{}", i), tag: None, ty: Type::int(0, 7), presence: Presence::Optional }).collect()),
+        }),
+    );
     // inside a SEQUENCE, so that a wrong encoding shifts a neighbour
     push(
         &mut m,
